@@ -178,13 +178,24 @@ qlisttbl_t *qconfig_parse_file(qlisttbl_t *tbl, const char *filepath,
                 return NULL;
             }
 
-            // replace
-            strncpy(buf, strp, CONST_STRLEN(_INCLUDE_DIRECTIVE) + len);
-            buf[CONST_STRLEN(_INCLUDE_DIRECTIVE) + len] = '\0';
-            strp = qstrreplace("sn", str, buf, incdata);
+            // replace this directive (and only this one) with the file
+            size_t dirlen = CONST_STRLEN(_INCLUDE_DIRECTIVE) + len;
+            size_t headlen = strp - str;
+            size_t inclen = strlen(incdata);
+            size_t taillen = strlen(strp + dirlen);
+            char *newstr = (char *) malloc(headlen + inclen + taillen + 1);
+            if (newstr == NULL) {
+                free(incdata);
+                free(str);
+                return NULL;
+            }
+            memcpy(newstr, str, headlen);
+            memcpy(newstr + headlen, incdata, inclen);
+            memcpy(newstr + headlen + inclen, strp + dirlen, taillen + 1);
             free(incdata);
             free(str);
-            str = strp;
+            str = newstr;
+            strp = str + headlen;  // the included text may include files too
         } else {
             strp += CONST_STRLEN(_INCLUDE_DIRECTIVE);
         }
